@@ -11,11 +11,13 @@ from vf.specops import (
     build_k2,
     build_k2_sets,
     build_k3,
+    build_k4,
     build_k5,
     k1_ops,
     k2_ops,
     k2_set_ops,
     k3_ops,
+    k4_ops,
     k5_ops,
 )
 from vf.sym import Violation, assume, check
@@ -49,7 +51,7 @@ def invariant(v, where, tag):
             check(conforms(val, T), "managed attribute conforms to its annotation", f"{tag}/nonconforming-{cname}.{a}", lambda: f"{where}: {cname}.{a} = {val!r}")
 
 
-def make(prop, fam, tmpl, opname, attr=None, conform=True, inplace_mode="sym", fault=0):
+def make(prop, fam, tmpl, opname, attr=None, conform=True, inplace_mode="sym", fault=0, fault_shard=None):
     """prop in {"C01","C03","C04"}; inplace_mode: "sym" (symbolic), False, True."""
     NS = FAMILIES[fam]
 
@@ -85,6 +87,13 @@ def make(prop, fam, tmpl, opname, attr=None, conform=True, inplace_mode="sym", f
                 assume(ip)
             op = k3_ops(NS, opname, attr, P, ip)
             op.must_raise = False
+        elif tmpl == "K4":
+            o, by = build_k4(NS, P), build_k4(NS, P)
+            if opname.startswith("setattr"):
+                assume(ip)
+            if opname.startswith("ctor"):
+                assume(not ip)
+            op = k4_ops(NS, opname, P, ip, conform)
         elif tmpl == "K5":
             o, by = build_k5(NS, P), build_k5(NS, P)
             if opname.startswith("setattr"):
@@ -100,8 +109,11 @@ def make(prop, fam, tmpl, opname, attr=None, conform=True, inplace_mode="sym", f
             # E2-fault: an exception injected at the kf-th executed statement of library code (symbolic kf)
             from vf import instrument
 
-            assume(1 <= kf <= fault)
-            instrument.arm(kf, "fault")
+            assume(0 <= kf <= fault)  # kf == 0: no fault (also used by the warm-up to build lazily generated methods first)
+            if fault_shard is not None and kf != 0:
+                assume(kf % fault_shard[1] == fault_shard[0])  # shards partition the abort points for parallelism
+            if kf != 0:
+                instrument.arm(kf, "fault")
         try:
             r = op.call(o)
             exc = None
@@ -146,8 +158,13 @@ def make(prop, fam, tmpl, opname, attr=None, conform=True, inplace_mode="sym", f
     return h
 
 
-def warm(tmpl):
+def warm(tmpl, fault=False):
     out = []
+    if fault:
+        # first run every variant WITHOUT a fault so that lazily built library state (generated methods, cached
+        # properties) exists before any fault is injected; otherwise statement counts differ between runs
+        out = [w[:-1] + (0,) for w in warm(tmpl)]
+        return out + warm(tmpl)
     for n in (0, 1, 2):
         for i in (-1, 0, 2):
             for fk in (0, 1, 2, 3):
